@@ -9,12 +9,12 @@ namespace Pm.Daemon.TwoRun.Ex
 open Pm Pm.Client Pm.Daemon Pm.Daemon.Isolation Pm.Daemon.TwoRun
 
 /-- pass A: the device answers client 1's action; both client descriptors are reported writable -/
-def pA : PassIn := { now := 4000, acc := 0, con := 0, soe := 0, envs :=
+def pA : PassIn := { now := 4000, acc := 0, con := [0], soe := [0], envs :=
   [{ fd := 2000, rev := 1, rk := 0, data := bstr "1 on\n", cap := 100 }, { fd := 1001, rev := 2, rk := 0, data := [], cap := 100 },
    { fd := 1000, rev := 2, rk := 0, data := [], cap := 100 }] }
 /-- pass B: a third client connects, client 1 asks `status a1` again, client 2 sends `help` (answered 208: its command is still in
     progress), the device takes the bytes of client 2's action -/
-def pB : PassIn := { now := 5000, acc := 1, con := 0, soe := 0, envs :=
+def pB : PassIn := { now := 5000, acc := 1, con := [0], soe := [0], envs :=
   [{ fd := 2000, rev := 2, rk := 0, data := [], cap := 100 }, { fd := 1001, rev := 3, rk := 0, data := bstr "help\n", cap := 100 },
    { fd := 1000, rev := 3, rk := 0, data := bstr "status a1\n", cap := 100 }] }
 def ps : List PassIn := [pA, pB]
@@ -249,9 +249,9 @@ def wa : W := { Pm.Daemon.Ex.w1 with cfg := cfgN }
 /-- `B` emitting garbage -/
 def wb : W := { Pm.Daemon.Ex.w2 with cfg := cfgN }
 /-- pass 1: client 1 sends `help` while its command is in progress (answered 208); `A` completes the command -/
-def q1 : PassIn := { now := 2000, acc := 0, con := 0, soe := 0, envs := [{ fd := 1000, rev := 1, rk := 0, data := bstr "help\n", cap := 0 }] }
+def q1 : PassIn := { now := 2000, acc := 0, con := [0], soe := [0], envs := [{ fd := 1000, rev := 1, rk := 0, data := bstr "help\n", cap := 0 }] }
 /-- pass 2: a third client connects; client 1 is written to and sends `on a1` (installed on `A`) and `device a1` (answered 208) -/
-def q2 : PassIn := { now := 3000, acc := 1, con := 0, soe := 0, envs := [{ fd := 1000, rev := 3, rk := 0, data := bstr "on a1\ndevice a1\n", cap := 100 }] }
+def q2 : PassIn := { now := 3000, acc := 1, con := [0], soe := [0], envs := [{ fd := 1000, rev := 3, rk := 0, data := bstr "on a1\ndevice a1\n", cap := 100 }] }
 
 def FB : Nat → Bool := isFd 1001
 def PBx : List Pm.Dev2.Plug := [Pm.Daemon.Ex.plugB]
@@ -336,10 +336,10 @@ and is told `actions=002` in one run and `actions=001` in the other. -/
 def devBok : Pm.Dev2.Dev := { Pm.Daemon.Ex.devB with fromBuf := [79, 75, 10] }
 def wh : W := { wa with devs := [([65], Pm.Daemon.Ex.devA), ([66], devBok), ([67], Pm.Daemon.Ex.devC)] }
 def xOK : List Pm.Dev2.RxCall := [{ pat := 1, subject := [79, 75, 10], answer := some [(0, 3)] }]
-def r1 : PassIn := { now := 2000, acc := 0, con := 0, soe := 0, envs := [] }
-def r2 : PassIn := { now := 3000, acc := 0, con := 0, soe := 0, envs := [{ fd := 1001, rev := 3, rk := 0, data := bstr "on a1\n", cap := 100 }, { fd := 2000, rev := 2, rk := 0, data := [], cap := 100 }] }
-def r3 : PassIn := { now := 4000, acc := 0, con := 0, soe := 0, envs := [{ fd := 2000, rev := 3, rk := 0, data := [79, 75, 10], cap := 100 }] }
-def r4 : PassIn := { now := 5000, acc := 0, con := 0, soe := 0, envs := [{ fd := 1000, rev := 3, rk := 0, data := bstr "device a1\n", cap := 100 }] }
+def r1 : PassIn := { now := 2000, acc := 0, con := [0], soe := [0], envs := [] }
+def r2 : PassIn := { now := 3000, acc := 0, con := [0], soe := [0], envs := [{ fd := 1001, rev := 3, rk := 0, data := bstr "on a1\n", cap := 100 }, { fd := 2000, rev := 2, rk := 0, data := [], cap := 100 }] }
+def r3 : PassIn := { now := 4000, acc := 0, con := [0], soe := [0], envs := [{ fd := 2000, rev := 3, rk := 0, data := [79, 75, 10], cap := 100 }] }
+def r4 : PassIn := { now := 5000, acc := 0, con := [0], soe := [0], envs := [{ fd := 1000, rev := 3, rk := 0, data := bstr "device a1\n", cap := 100 }] }
 def runH : List (PassIn × List Pm.Dev2.RxCall) := [(r1, xOK ++ xOK), (r2, []), (r3, xOK), (r4, [])]
 def runS : List (PassIn × List Pm.Dev2.RxCall) :=
   [(r1, xOK ++ Pm.Daemon.Ex.xB'), (r2, Pm.Daemon.Ex.xB'), (r3, Pm.Daemon.Ex.xB'), (r4, Pm.Daemon.Ex.xB')]
@@ -414,14 +414,14 @@ theorem mkGonePass (fs : Nat) (w w' : W) (p p' : PassIn) (h1 : p'.now = p.now) (
   alive' := h12
 
 /-- pass V, first run: the device answers client 1's action; nothing is reported for client 2's descriptor 1001 -/
-def pV : PassIn := { now := 4000, acc := 0, con := 0, soe := 0, envs :=
+def pV : PassIn := { now := 4000, acc := 0, con := [0], soe := [0], envs :=
   [{ fd := 2000, rev := 1, rk := 0, data := bstr "1 on\n", cap := 100 }, { fd := 1000, rev := 2, rk := 0, data := [], cap := 100 }] }
 /-- pass V, second run: descriptor 1001 reports `POLLERR` — client 2 is destroyed -/
-def pV' : PassIn := { now := 4000, acc := 0, con := 0, soe := 0, envs :=
+def pV' : PassIn := { now := 4000, acc := 0, con := [0], soe := [0], envs :=
   [{ fd := 2000, rev := 1, rk := 0, data := bstr "1 on\n", cap := 100 }, { fd := 1000, rev := 2, rk := 0, data := [], cap := 100 },
    { fd := 1001, rev := 8, rk := 0, data := [], cap := 0 }] }
 /-- pass W (both runs): the device takes the bytes of client 2's action, which is still queued -/
-def pW : PassIn := { now := 5000, acc := 0, con := 0, soe := 0, envs := [{ fd := 2000, rev := 2, rk := 0, data := [], cap := 100 }] }
+def pW : PassIn := { now := 5000, acc := 0, con := [0], soe := [0], envs := [{ fd := 2000, rev := 2, rk := 0, data := [], cap := 100 }] }
 def ppV : List (PassIn × PassIn) := [(pV, pV'), (pW, pW)]
 
 theorem brel0 : BRel 1001 Two.w3x Two.w3x := (ARel.init 2 1001 Two.w3x onlyS fresh).toB
@@ -434,8 +434,8 @@ theorem goneRun : GoneRun 1001 Two.w3x Two.w3x ppV :=
    trivial⟩
 
 /-- after the two stuck passes `ps`/`ps'`: a pass in which descriptor 1001 reports `POLLERR` in the second run only -/
-def pZ : PassIn := { now := 6000, acc := 0, con := 0, soe := 0, envs := [] }
-def pZ' : PassIn := { now := 6000, acc := 0, con := 0, soe := 0, envs := [{ fd := 1001, rev := 8, rk := 0, data := [], cap := 0 }] }
+def pZ : PassIn := { now := 6000, acc := 0, con := [0], soe := [0], envs := [] }
+def pZ' : PassIn := { now := 6000, acc := 0, con := [0], soe := [0], envs := [{ fd := 1001, rev := 8, rk := 0, data := [], cap := 0 }] }
 def pp1 : List (PassIn × PassIn) := ps.map fun p => (p, stuckIn 1001 p)
 
 theorem goneAfterStuck : GoneRun 1001 (runPasses Two.w3x (pp1.map (·.1))) (runPasses Two.w3x (pp1.map (·.2))) [(pZ, pZ')] :=
